@@ -84,6 +84,13 @@ Proof.
   apply IH; [lia|congruence].
 Qed.
 
+Lemma skipn_plus {A} (m n : nat) : forall l : list A, skipn (m + n) l = skipn n (skipn m l).
+Proof.
+  induction m as [|m IH]; intros l; [reflexivity|]. destruct l as [|x l]; cbn [Nat.add skipn].
+  - now destruct n.
+  - apply IH.
+Qed.
+
 Lemma firstn_skipn_len {A} (l : list A) n m : length l = (n + m)%nat -> length (skipn n l) = m.
 Proof. intros. rewrite skipn_length. lia. Qed.
 
@@ -607,7 +614,7 @@ Qed.
 Lemma ser_head_parts nd : wf_node nd ->
   length (nd_fpr pt nd) = 4%nat /\ length (be_encode 4 (Z.to_N (nd_index pt nd))) = 4%nat /\
   length (nd_chain pt nd) = 32%nat.
-Proof. intros (Hc & Hf & _). repeat split; try assumption. apply be_encode_length. Qed.
+Proof. intros (Hc & Hf & _). split; [exact Hf|]. split; [apply be_encode_length|exact Hc]. Qed.
 
 Lemma bytes_eqb_neq a b : a <> b -> bytes_eqb a b = false.
 Proof. intros H. destruct (bytes_eqb a b) eqn:E; [|reflexivity]. apply bytes_eqb_eq in E. contradiction. Qed.
@@ -630,7 +637,7 @@ Proof.
   { unfold slice. rewrite S45. reflexivity. }
   rewrite S4546. cbn [bytes_eqb byte_eqb]. rewrite byte_eqb_refl. cbn [andb].
   assert (S46 : skipn 46 data = be_encode 32 (Z.to_N k)).
-  { change 46%nat with (1 + 45)%nat. rewrite <- skipn_skipn, S45. reflexivity. }
+  { change 46%nat with (45 + 1)%nat. rewrite skipn_plus, S45. reflexivity. }
   rewrite S46, from_to_bytes_32 by lia. rewrite be4_roundtrip by exact Hi. rewrite b2z_z2b by exact Hd.
   rewrite node_init_prv by assumption. f_equal. destruct nd as [c d f i s P]. cbn in *. subst s P. reflexivity.
 Qed.
@@ -751,4 +758,446 @@ Proof.
     rewrite KP. rewrite <- !app_assoc. reflexivity.
 Qed.
 
+
+(* ---------------------------------------------------------------------------------------------- *)
+(* outside the hypothesis of the commutation lemma *)
+Lemma ckd_priv_retry k chain i' h P :
+  1 <= k < order -> 0 <= i' < 2 ^ 32 ->
+  let I64 := hmac512 chain (priv_data k P i' h) in
+  let IL := from_bytes_32 (firstn 32 I64) in
+  order <= IL \/ (IL + k) mod order = 0 ->
+  ckd_priv loop_fuel k chain i' h (Some P) =
+  ckd_priv_loop (pred loop_fuel) k chain (x01 :: skipn 32 I64 ++ be_encode 4 (Z.to_N i')) (be_encode 4 (Z.to_N i')).
+Proof.
+  intros Hk Hi I64 IL H. unfold subkey_secret_exponent_chain_code_pair.
+  rewrite pack_BE_L_ok by exact Hi. cbn [bind].
+  assert (D : (if h then do kb <- to_bytes_32 k; Ret (x00 :: kb ++ be_encode 4 (Z.to_N i'))
+               else Ret (sec P ++ be_encode 4 (Z.to_N i'))) = Ret (priv_data k P i' h)).
+  { unfold priv_data. destruct h; [|reflexivity]. rewrite to_bytes_32_ok by lia. reflexivity. }
+  rewrite D. cbn [bind]. destruct loop_fuel as [|f]; [lia|]. cbn [Bip32.ckd_priv_loop pred].
+  fold I64. fold IL.
+  replace ((IL <? order) && negb ((IL + k) mod order =? 0)) with false; [reflexivity|].
+  symmetry. destruct H as [H|H].
+  - replace (IL <? order) with false by (symmetry; apply Z.ltb_ge; exact H). reflexivity.
+  - rewrite H. cbn. apply andb_false_r.
+Qed.
+
+(* ---------------------------------------------------------------------------------------------- *)
+(* the sub-key cache is transparent *)
+Notation cache := (cache pt).
+Notation cache_lookup := (cache_lookup pt).
+Notation subkey := (Bip32.subkey pt padd pO smul pG order pt_eqb sec hmac512 hash160 loop_fuel).
+Notation path_walk := (path_walk pt padd pO smul pG order pt_eqb sec hmac512 hash160 loop_fuel).
+Notation subkey_for_path := (subkey_for_path pt padd pO smul pG order pt_eqb sec hmac512 hash160 loop_fuel).
+Notation subkeys_walk := (subkeys_walk pt padd pO smul pG order pt_eqb sec hmac512 hash160 loop_fuel).
+Notation subkeys := (subkeys pt padd pO smul pG order pt_eqb sec hmac512 hash160 loop_fuel).
+Notation run_op := (run_op pt padd pO smul pG order pt_eqb sec hmac512 hash160 loop_fuel).
+Notation run_ops := (run_ops pt padd pO smul pG order pt_eqb sec hmac512 hash160 loop_fuel).
+Notation opres := (opres pt).
+
+Lemma ckey_eqb_eq a b : ckey_eqb a b = true <-> a = b.
+Proof.
+  destruct a as [[i h] p], b as [[j g] q]. unfold ckey_eqb. rewrite !andb_true_iff, Z.eqb_eq, !Bool.eqb_true_iff.
+  split; [intros [[-> ->] ->]; reflexivity|intros E; injection E as -> -> ->; auto].
+Qed.
+Lemma cpath_eqb_eq : forall a b, cpath_eqb a b = true <-> a = b.
+Proof.
+  induction a as [|x a IH]; intros [|y b]; cbn; split; intros H; try discriminate; try reflexivity.
+  - apply andb_true_iff in H. destruct H as [H1 H2]. apply ckey_eqb_eq in H1. apply IH in H2. congruence.
+  - injection H as -> ->. apply andb_true_iff. split; [apply ckey_eqb_eq|apply IH]; reflexivity.
+Qed.
+
+(* every cached object is what an uncached derivation along its cache path gives *)
+Definition cache_ok (root : node) (c : cache) : Prop :=
+  forall p nd, cache_lookup c p = Some nd -> derive_raw root p = Ret nd.
+
+Lemma cache_ok_nil root : cache_ok root [].
+Proof. intros p nd H. discriminate. Qed.
+
+Definition resolve_ap (nd : node) (as_private : option bool) : bool :=
+  match as_private with Some b => b | None => is_some (nd_secret pt nd) end.
+
+Lemma subkey_ok root c p nd i h ap r c' :
+  cache_ok root c -> derive_raw root p = Ret nd -> subkey c p nd i h ap = (r, c') ->
+  r = subkey_raw nd i h (resolve_ap nd ap) /\ cache_ok root c' /\
+  (forall k, r = Ret k -> derive_raw root (p ++ [(i, h, resolve_ap nd ap)]) = Ret k).
+Proof.
+  intros C D H. unfold Bip32.subkey in H. fold (resolve_ap nd ap) in H.
+  set (q := p ++ [(i, h, resolve_ap nd ap)]) in *.
+  assert (Dq : derive_raw root q = subkey_raw nd i h (resolve_ap nd ap)).
+  { unfold q. rewrite derive_raw_snoc, D. reflexivity. }
+  destruct (cache_lookup c q) as [k|] eqn:L.
+  - injection H as <- <-. apply C in L. rewrite Dq in L. split; [symmetry; exact L|]. split; [exact C|].
+    intros k0 E. rewrite Dq, L. exact E.
+  - destruct (subkey_raw nd i h (resolve_ap nd ap)) as [k| |] eqn:R; injection H as <- <-.
+    + split; [reflexivity|]. split; [|intros k0 E; rewrite Dq; exact E].
+      intros p0 x Hl. cbn [Bip32.cache_lookup] in Hl. destruct (cpath_eqb q p0) eqn:Q.
+      * apply cpath_eqb_eq in Q. subst p0. injection Hl as <-. rewrite Dq. reflexivity.
+      * apply C. exact Hl.
+    + split; [reflexivity|]. split; [exact C|]. intros k0 E. discriminate.
+    + split; [reflexivity|]. split; [exact C|]. intros k0 E. discriminate.
+Qed.
+
+(* uncached reference semantics of subkey_for_path / subkeys *)
+Fixpoint walk_raw (key : node) (invocations : list bytes) : outcome node :=
+  match invocations with
+  | [] => Ret key
+  | v :: r =>
+    do '(vi, h) <- path_token v;
+    do k <- subkey_raw key vi h (is_some (nd_secret pt key));
+    walk_raw k r
+  end.
+Definition subkey_for_path_raw (nd : node) (path : bytes) : outcome node :=
+  let '(force_public, invocations) := path_tokens path in
+  do key <- walk_raw nd invocations;
+  if force_public && is_some (nd_secret pt key) then public_copy key else Ret key.
+Fixpoint subkeys_walk_raw (nd : node) (paths : list bytes) : list node * option pyexn :=
+  match paths with
+  | [] => ([], None)
+  | s :: r =>
+    match subkey_for_path_raw nd s with
+    | Ret k => let '(ks, e) := subkeys_walk_raw nd r in (k :: ks, e)
+    | Raise e => ([], Some e)
+    | OutOfFuel => ([], Some E_OTHER)
+    end
+  end.
+Definition subkeys_raw (limit : Z) (nd : node) (path : bytes) : outcome (list node * option pyexn) :=
+  do paths <- subpaths_for_path_range limit path;
+  Ret (subkeys_walk_raw nd paths).
+
+Lemma path_walk_ok root : forall toks c p key r c',
+  cache_ok root c -> derive_raw root p = Ret key -> path_walk c p key toks = (r, c') ->
+  r = walk_raw key toks /\ cache_ok root c'.
+Proof.
+  induction toks as [|v toks IH]; intros c p key r c' C D H; cbn [Bip32.path_walk walk_raw] in *.
+  - injection H as <- <-. split; [reflexivity|exact C].
+  - destruct (path_token v) as [[vi h]| |]; cbn [bind].
+    + destruct (subkey c p key vi h (Some (is_some (nd_secret pt key)))) as [r1 c1] eqn:S.
+      destruct (subkey_ok root c p key vi h _ r1 c1 C D S) as (E & C1 & Dk). cbn [resolve_ap] in E, Dk.
+      rewrite <- E. destruct r1 as [k| |].
+      * cbn [bind]. apply (IH c1 _ k r c' C1 (Dk k eq_refl) H).
+      * injection H as <- <-. split; [reflexivity|exact C1].
+      * injection H as <- <-. split; [reflexivity|exact C1].
+    + injection H as <- <-. split; [reflexivity|exact C].
+    + injection H as <- <-. split; [reflexivity|exact C].
+Qed.
+
+Lemma subkey_for_path_ok root c p nd path r c' :
+  cache_ok root c -> derive_raw root p = Ret nd -> subkey_for_path c p nd path = (r, c') ->
+  r = subkey_for_path_raw nd path /\ cache_ok root c'.
+Proof.
+  intros C D H. unfold Bip32.subkey_for_path, subkey_for_path_raw in *.
+  destruct (path_tokens path) as [fp toks].
+  destruct (path_walk c p nd toks) as [r1 c1] eqn:W.
+  destruct (path_walk_ok root toks c p nd r1 c1 C D W) as [E C1]. rewrite <- E.
+  destruct r1 as [key| |]; cbn [bind].
+  - destruct (fp && is_some (nd_secret pt key)); injection H as <- <-; split; (reflexivity || exact C1).
+  - injection H as <- <-. split; [reflexivity|exact C1].
+  - injection H as <- <-. split; [reflexivity|exact C1].
+Qed.
+
+Lemma subkeys_walk_ok root p nd : forall paths c ks e c',
+  cache_ok root c -> derive_raw root p = Ret nd -> subkeys_walk c p nd paths = (ks, e, c') ->
+  (ks, e) = subkeys_walk_raw nd paths /\ cache_ok root c'.
+Proof.
+  induction paths as [|s paths IH]; intros c ks e c' C D H; cbn [Bip32.subkeys_walk subkeys_walk_raw] in *.
+  - injection H as <- <- <-. split; [reflexivity|exact C].
+  - destruct (subkey_for_path c p nd s) as [r1 c1] eqn:S.
+    destruct (subkey_for_path_ok root c p nd s r1 c1 C D S) as [E C1]. rewrite <- E.
+    destruct r1 as [k| |].
+    + destruct (subkeys_walk c1 p nd paths) as [[ks1 e1] c2] eqn:W.
+      destruct (IH c1 ks1 e1 c2 C1 D W) as [E2 C2]. rewrite <- E2.
+      injection H as <- <- <-. split; [reflexivity|exact C2].
+    + injection H as <- <- <-. split; [reflexivity|exact C1].
+    + injection H as <- <- <-. split; [reflexivity|exact C1].
+Qed.
+
+(* what a call of the history returns without any cache, the receiver being the node derived along p *)
+Definition op_raw (limit : Z) (root : node) (o : hdop) : opres :=
+  match o with
+  | OpSubkey p i h ap =>
+    match derive_raw root p with Ret nd => RNode pt (subkey_raw nd i h (resolve_ap nd ap)) | _ => RSkip pt end
+  | OpPath p path =>
+    match derive_raw root p with Ret nd => RNode pt (subkey_for_path_raw nd path) | _ => RSkip pt end
+  | OpSubkeys p path =>
+    match derive_raw root p with Ret nd => RList pt (subkeys_raw limit nd path) | _ => RSkip pt end
+  end.
+
+Lemma op_target_ok root c p nd :
+  cache_ok root c -> op_target pt root c p = Some nd -> derive_raw root p = Ret nd.
+Proof.
+  intros C H. unfold op_target in H. destruct p as [|k p].
+  - injection H as <-. reflexivity.
+  - apply C. exact H.
+Qed.
+
+Lemma run_op_ok limit root c o r c' :
+  cache_ok root c -> run_op limit root c o = (r, c') ->
+  (r = RSkip pt \/ r = op_raw limit root o) /\ cache_ok root c'.
+Proof.
+  intros C H. destruct o as [p i h ap|p path|p path]; cbn [Bip32.run_op op_raw] in *.
+  - destruct (op_target pt root c p) as [nd|] eqn:T.
+    + pose proof (op_target_ok root c p nd C T) as D. rewrite D.
+      destruct (subkey c p nd i h ap) as [r1 c1] eqn:S. injection H as <- <-.
+      destruct (subkey_ok root c p nd i h ap r1 c1 C D S) as (E & C1 & _). rewrite E. split; [right; reflexivity|exact C1].
+    + injection H as <- <-. split; [left; reflexivity|exact C].
+  - destruct (op_target pt root c p) as [nd|] eqn:T.
+    + pose proof (op_target_ok root c p nd C T) as D. rewrite D.
+      destruct (subkey_for_path c p nd path) as [r1 c1] eqn:S. injection H as <- <-.
+      destruct (subkey_for_path_ok root c p nd path r1 c1 C D S) as (E & C1). rewrite E. split; [right; reflexivity|exact C1].
+    + injection H as <- <-. split; [left; reflexivity|exact C].
+  - destruct (op_target pt root c p) as [nd|] eqn:T.
+    + pose proof (op_target_ok root c p nd C T) as D. rewrite D.
+      unfold Bip32.subkeys, subkeys_raw in *.
+      destruct (subpaths_for_path_range limit path) as [paths| |]; cbn [bind] in *.
+      * destruct (subkeys_walk c p nd paths) as [[ks e] c1] eqn:W. injection H as <- <-.
+        destruct (subkeys_walk_ok root p nd paths c ks e c1 C D W) as [E C1]. rewrite <- E.
+        split; [right; reflexivity|exact C1].
+      * injection H as <- <-. split; [right; reflexivity|exact C].
+      * injection H as <- <-. split; [right; reflexivity|exact C].
+    + injection H as <- <-. split; [left; reflexivity|exact C].
+Qed.
+
+Lemma run_ops_ok limit root : forall ops c, cache_ok root c ->
+  Forall2 (fun r o => r = RSkip pt \/ r = op_raw limit root o) (run_ops limit root c ops) ops.
+Proof.
+  induction ops as [|o ops IH]; intros c C; cbn [Bip32.run_ops]; [constructor|].
+  destruct (run_op limit root c o) as [r c1] eqn:R.
+  destruct (run_op_ok limit root c o r c1 C R) as [E C1].
+  constructor; [exact E|apply IH; exact C1].
+Qed.
+
+(* calls on the root object itself are never skipped *)
+Lemma run_op_root_not_skipped limit root c o :
+  match o with OpSubkey [] _ _ _ | OpPath [] _ | OpSubkeys [] _ => fst (run_op limit root c o) <> RSkip pt | _ => True end.
+Proof.
+  destruct o as [[|k p] i h ap|[|k p] path|[|k p] path]; try exact I; cbn [Bip32.run_op op_target].
+  - destruct (subkey c [] root i h ap). cbn. discriminate.
+  - destruct (subkey_for_path c [] root path). cbn. discriminate.
+  - destruct (subkeys limit c [] root path) as [[[ks e] c1]| |]; cbn; discriminate.
+Qed.
+
 End WithGroup.
+
+(* ---------------------------------------------------------------------------------------------- *)
+(* strings: split / join, int(), "%d" *)
+
+Lemma byte_eqb_neq a b : a <> b -> byte_eqb a b = false.
+Proof. intros H. destruct (byte_eqb a b) eqn:E; [|reflexivity]. apply byte_eqb_eq in E. contradiction. Qed.
+
+Lemma split_nosep sep x : contains sep x = false -> split sep x = [x].
+Proof.
+  induction x as [|b x IH]; cbn [contains split]; intros H; [reflexivity|].
+  apply orb_false_elim in H. destruct H as [H1 H2]. rewrite H1, (IH H2). reflexivity.
+Qed.
+
+Lemma split_app_sep sep x s : contains sep x = false -> split sep (x ++ sep :: s) = x :: split sep s.
+Proof.
+  induction x as [|b x IH]; cbn [contains split app]; intros H.
+  - rewrite byte_eqb_refl. reflexivity.
+  - apply orb_false_elim in H. destruct H as [H1 H2]. rewrite H1, (IH H2). reflexivity.
+Qed.
+
+Lemma split_join sep ts : ts <> [] -> Forall (fun t => contains sep t = false) ts -> split sep (join sep ts) = ts.
+Proof.
+  induction ts as [|x ts IH]; intros N F; [contradiction|].
+  inversion F as [|? ? Hx F']; subst. destruct ts as [|y ts].
+  - cbn [join]. apply split_nosep. exact Hx.
+  - change (join sep (x :: y :: ts)) with (x ++ sep :: join sep (y :: ts)).
+    rewrite split_app_sep by exact Hx. rewrite IH; [reflexivity|discriminate|exact F'].
+Qed.
+
+Lemma contains_app c a b : contains c (a ++ b) = contains c a || contains c b.
+Proof. induction a as [|x a IH]; cbn [contains app]; [reflexivity|]. rewrite IH. apply orb_assoc. Qed.
+
+Lemma contains_join c sep ts : byte_eqb sep c = false -> Forall (fun t => contains c t = false) ts ->
+  contains c (join sep ts) = false.
+Proof.
+  intros Hs. induction ts as [|x ts IH]; intros F; [reflexivity|].
+  inversion F as [|? ? Hx F']; subst. destruct ts as [|y ts]; [exact Hx|].
+  change (join sep (x :: y :: ts)) with (x ++ sep :: join sep (y :: ts)).
+  rewrite contains_app, Hx. cbn [contains orb]. rewrite Hs. apply IH. exact F'.
+Qed.
+
+Lemma split_once_nosep sep x : contains sep x = false -> split_once sep x = None.
+Proof.
+  induction x as [|b x IH]; cbn [contains split_once]; intros H; [reflexivity|].
+  apply orb_false_elim in H. destruct H as [H1 H2]. rewrite H1, (IH H2). reflexivity.
+Qed.
+
+Lemma split_once_app sep x s : contains sep x = false -> split_once sep (x ++ sep :: s) = Some (x, s).
+Proof.
+  induction x as [|b x IH]; cbn [contains split_once app]; intros H.
+  - rewrite byte_eqb_refl. reflexivity.
+  - apply orb_false_elim in H. destruct H as [H1 H2]. rewrite H1, (IH H2). reflexivity.
+Qed.
+
+Lemma last_opt_snoc {A} (s : list A) c : last_opt (s ++ [c]) = Some c.
+Proof. unfold last_opt. rewrite rev_app_distr. reflexivity. Qed.
+
+Lemma last_opt_forall {A} (P : A -> Prop) (s : list A) : s <> [] -> Forall P s -> exists d, last_opt s = Some d /\ P d.
+Proof.
+  intros N F. unfold last_opt. apply Forall_rev in F. destruct (rev s) as [|d r] eqn:E.
+  - exfalso. apply N. rewrite <- (rev_involutive s), E. reflexivity.
+  - inversion F; subst. eauto.
+Qed.
+
+Definition is_digit (b : byte) : bool := (48 <=? b2z b) && (b2z b <=? 57).
+
+Lemma is_digit_range b : is_digit b = true <-> 48 <= b2z b <= 57.
+Proof. unfold is_digit. rewrite andb_true_iff, Z.leb_le, Z.leb_le. reflexivity. Qed.
+
+Lemma digit_neq b c : is_digit b = true -> (b2z c < 48 \/ 57 < b2z c) -> byte_eqb b c = false.
+Proof. intros D H. apply byte_eqb_neq. intros ->. apply is_digit_range in D. lia. Qed.
+
+Lemma digit_not_ws b : is_digit b = true -> is_ws b = false.
+Proof.
+  intros D. apply is_digit_range in D. unfold is_ws. cbn zeta.
+  repeat (apply orb_false_intro); try (apply Z.eqb_neq; lia).
+  apply andb_false_iff. right. apply Z.leb_gt. lia.
+Qed.
+
+Lemma digit_not_hardening b : is_digit b = true -> is_hardening_char b = false.
+Proof.
+  intros D. unfold is_hardening_char.
+  rewrite !(digit_neq b _ D) by (vm_compute; intuition congruence). reflexivity.
+Qed.
+
+Lemma digit_val_digit b : is_digit b = true -> digit_val b = Some (b2z b - 48).
+Proof. intros D. unfold digit_val. cbn zeta. unfold is_digit in D. rewrite D. reflexivity. Qed.
+
+Lemma digit_char_ok d : 0 <= d <= 9 -> is_digit (digit_char d) = true /\ b2z (digit_char d) = 48 + d.
+Proof.
+  intros H. assert (E : b2z (digit_char d) = 48 + d) by (unfold digit_char; apply b2z_z2b; lia).
+  split; [|exact E]. apply is_digit_range. lia.
+Qed.
+
+Lemma dec_pos_digits f : forall v, 0 <= v -> Forall (fun b => is_digit b = true) (dec_pos f v).
+Proof.
+  induction f as [|f IH]; intros v Hv; cbn [dec_pos]; [constructor|].
+  destruct (Z.ltb_spec v 10).
+  - constructor; [|constructor]. apply digit_char_ok. lia.
+  - apply Forall_app. split.
+    + apply IH. apply Z.div_pos; lia.
+    + constructor; [|constructor]. apply digit_char_ok. pose proof (Z.mod_pos_bound v 10). lia.
+Qed.
+
+Lemma dec_pos_nonempty f v : dec_pos (S f) v <> [].
+Proof. cbn [dec_pos]. destruct (v <? 10); [discriminate|]. intros E. apply app_eq_nil in E. destruct E; discriminate. Qed.
+
+Lemma dec_pos_S f v :
+  dec_pos (S f) v = if v <? 10 then [digit_char v] else dec_pos f (v / 10) ++ [digit_char (v mod 10)].
+Proof. reflexivity. Qed.
+
+Lemma dec_pos_parse f : forall v acc p rest, 0 <= v < 2 ^ (Z.of_nat f + 1) ->
+  exists k : nat, parse_digits (dec_pos (S f) v ++ rest) acc p = parse_digits rest (acc * 10 ^ Z.of_nat k + v) true.
+Proof.
+  induction f as [|f IH]; intros v acc p rest Hv.
+  - rewrite dec_pos_S. change (2 ^ (Z.of_nat 0 + 1)) with 2 in Hv.
+    replace (v <? 10) with true by (symmetry; apply Z.ltb_lt; lia).
+    exists 1%nat. cbn [app parse_digits]. destruct (digit_char_ok v ltac:(lia)) as [D E].
+    rewrite (digit_val_digit _ D), E. f_equal. change (10 ^ Z.of_nat 1) with 10. lia.
+  - rewrite dec_pos_S. destruct (Z.ltb_spec v 10) as [L|L].
+    + exists 1%nat. cbn [app parse_digits]. destruct (digit_char_ok v ltac:(lia)) as [D E].
+      rewrite (digit_val_digit _ D), E. f_equal. change (10 ^ Z.of_nat 1) with 10. lia.
+    + rewrite <- app_assoc. cbn [app].
+      assert (Hq : 0 <= v / 10 < 2 ^ (Z.of_nat f + 1)).
+      { split; [apply Z.div_pos; lia|]. apply Z.div_lt_upper_bound; [lia|].
+        replace (Z.of_nat (S f) + 1) with (Z.succ (Z.of_nat f + 1)) in Hv by lia.
+        rewrite Z.pow_succ_r in Hv by lia. lia. }
+      destruct (IH (v / 10) acc p (digit_char (v mod 10) :: rest) Hq) as [k Hk].
+      exists (S k). rewrite Hk.
+      cbn [parse_digits]. pose proof (Z.mod_pos_bound v 10 ltac:(lia)) as Hm.
+      destruct (digit_char_ok (v mod 10) ltac:(lia)) as [D E].
+      rewrite (digit_val_digit _ D), E. f_equal.
+      rewrite Nat2Z.inj_succ, Z.pow_succ_r by lia. pose proof (Z.div_mod v 10 ltac:(lia)). lia.
+Qed.
+
+Lemma dec_fuel_ok v : 0 <= v -> exists f, dec_fuel v = S f /\ 0 <= v < 2 ^ (Z.of_nat f + 1).
+Proof.
+  intros Hv. unfold dec_fuel. eexists. split; [reflexivity|]. split; [exact Hv|].
+  rewrite Z2Nat.id by apply Z.log2_nonneg.
+  destruct (Z.eq_dec v 0) as [->|N]; [cbn; lia|].
+  pose proof (Z.log2_spec v ltac:(lia)) as [_ H]. replace (Z.log2 v + 1) with (Z.succ (Z.log2 v)) by lia. exact H.
+Qed.
+
+Lemma py_dec_digits v : 0 <= v -> py_dec v <> [] /\ Forall (fun b => is_digit b = true) (py_dec v).
+Proof.
+  intros Hv. unfold py_dec. replace (v <? 0) with false by (symmetry; apply Z.ltb_ge; exact Hv).
+  destruct (dec_fuel_ok v Hv) as (f & -> & _). split; [apply dec_pos_nonempty|apply dec_pos_digits; exact Hv].
+Qed.
+
+Lemma lstrip_nows s : Forall (fun b => is_ws b = false) s -> lstrip s = s.
+Proof. intros F. destruct s as [|b s]; [reflexivity|]. inversion F; subst. cbn [lstrip]. now rewrite H1. Qed.
+
+Lemma digits_nows s : Forall (fun b => is_digit b = true) s -> Forall (fun b => is_ws b = false) s.
+Proof. intros F. eapply Forall_impl; [|exact F]. intros b. apply digit_not_ws. Qed.
+
+Lemma py_int_dec v : 0 <= v -> py_int (py_dec v) = Ret v.
+Proof.
+  intros Hv. destruct (py_dec_digits v Hv) as [NE F]. unfold py_int.
+  assert (S : strip (py_dec v) = py_dec v).
+  { unfold strip. rewrite (lstrip_nows _ (digits_nows _ F)).
+    rewrite (lstrip_nows (rev (py_dec v))) by (apply Forall_rev, digits_nows, F). apply rev_involutive. }
+  rewrite S. destruct (py_dec v) as [|b t] eqn:E; [contradiction|].
+  inversion F as [|? ? Hb _]; subst.
+  rewrite !(digit_neq b _ Hb) by (vm_compute; intuition congruence).
+  rewrite <- E. unfold py_dec. replace (v <? 0) with false by (symmetry; apply Z.ltb_ge; exact Hv).
+  destruct (dec_fuel_ok v Hv) as (f & -> & Hf).
+  destruct (dec_pos_parse f v 0 false [] Hf) as [k Hk]. rewrite app_nil_r in Hk. rewrite Hk.
+  cbn [parse_digits]. f_equal. lia.
+Qed.
+
+Lemma digits_contains c s : (b2z c < 48 \/ 57 < b2z c) -> Forall (fun b => is_digit b = true) s -> contains c s = false.
+Proof.
+  intros Hc. induction s as [|b s IH]; intros F; [reflexivity|]. inversion F; subst. cbn [contains].
+  rewrite (digit_neq b c) by assumption. apply IH. assumption.
+Qed.
+
+(* a path element: canonical decimal index, optionally followed by one of the three hardening characters *)
+Lemma path_token_plain t : 0 <= t -> path_token (py_dec t) = Ret (t, false).
+Proof.
+  intros Ht. destruct (py_dec_digits t Ht) as [NE F]. unfold path_token.
+  destruct (last_opt_forall _ _ NE F) as (d & -> & Hd). rewrite (digit_not_hardening d Hd).
+  rewrite (py_int_dec t Ht). reflexivity.
+Qed.
+
+Lemma removelast_snoc {A} (s : list A) c : removelast (s ++ [c]) = s.
+Proof. apply removelast_last. Qed.
+
+Lemma path_token_hardened t c : 0 <= t -> is_hardening_char c = true -> path_token (py_dec t ++ [c]) = Ret (t, true).
+Proof.
+  intros Ht Hc. unfold path_token. rewrite last_opt_snoc, Hc, removelast_snoc, (py_int_dec t Ht). reflexivity.
+Qed.
+
+(* the three spellings of a hardened element are interchangeable *)
+Definition same_token (v v' : bytes) : Prop :=
+  v = v' \/ exists body c c', is_hardening_char c = true /\ is_hardening_char c' = true /\
+                            v = body ++ [c] /\ v' = body ++ [c'].
+
+Lemma path_token_respell v v' : same_token v v' -> path_token v = path_token v'.
+Proof.
+  intros [->|(body & c & c' & Hc & Hc' & -> & ->)]; [reflexivity|].
+  unfold path_token. rewrite !last_opt_snoc, Hc, Hc', !removelast_snoc. reflexivity.
+Qed.
+
+(* a path string assembled from elements *)
+Definition render_path (force_public : bool) (tokens : list bytes) : bytes :=
+  join ch_slash tokens ++ (if force_public then str_pub else []).
+
+Lemma path_tokens_render fp ts :
+  Forall (fun t => contains ch_slash t = false) ts -> join ch_slash ts <> [] ->
+  (fp = false -> skipn (length (join ch_slash ts) - 4) (join ch_slash ts) <> str_pub) ->
+  path_tokens (render_path fp ts) = (fp, ts).
+Proof.
+  intros F NE Hs. unfold path_tokens, render_path. set (s := join ch_slash ts) in *.
+  assert (Nts : ts <> []) by (intros ->; apply NE; reflexivity).
+  destruct fp.
+  - rewrite app_length. change (length str_pub) with 4%nat.
+    replace (length s + 4 - 4)%nat with (length s) by lia.
+    rewrite skipn_app_exact, firstn_app_exact. cbn [bytes_eqb byte_eqb]. rewrite bytes_eqb_refl.
+    destruct s as [|b s'] eqn:E; [contradiction|]. rewrite <- E. unfold s. rewrite split_join by assumption. reflexivity.
+  - rewrite app_nil_r. destruct (bytes_eqb (skipn (length s - 4) s) str_pub) eqn:B.
+    + apply bytes_eqb_eq in B. exfalso. apply (Hs eq_refl). exact B.
+    + destruct s as [|b s'] eqn:E; [contradiction|]. rewrite <- E. unfold s. rewrite split_join by assumption. reflexivity.
+Qed.
